@@ -61,7 +61,8 @@ fn send_fenced(clients: &[Client], ci: usize, bytes: &[u8], dst: SocketAddr, fen
         Request::Connect(ConnectRequest { transaction_id: TransactionId::new(tid) }).write_bytes(&mut f).unwrap();
         let _ = clients[ci].sock.send_to(&f, dst);
         let t0 = Instant::now();
-        while t0.elapsed() < Duration::from_millis(1500) {
+        // (a lost fence is re-sent; a late one is recognised and ignored: the wait only bounds a run against a dead tracker)
+        while t0.elapsed() < Duration::from_millis(1500 + 4000 * attempt as u64) {
             let mut any = false;
             for (i, c) in clients.iter().enumerate() {
                 while let Ok((n, _)) = c.sock.recv_from(&mut buf) {
@@ -88,7 +89,6 @@ fn send_fenced(clients: &[Client], ci: usize, bytes: &[u8], dst: SocketAddr, fen
             }
             if !any { std::thread::sleep(Duration::from_millis(1)); }
         }
-        let _ = attempt;
     }
     None
 }
@@ -131,14 +131,6 @@ pub fn run(out: &mut impl Write, seed: u64, cases: usize, _replay: &str, uring_r
             writeln!(out, "cfg udpnet {} {} {} {} {} -\nnet START-FAILED", backend, max_scrape, max_peers, age, mode).unwrap();
             continue;
         };
-        if let Some(l) = server.exit_line(Duration::from_millis(150)) {
-            // run() returned at once: the configuration was refused (or start-up failed)
-            writeln!(out, "cfg udpnet {} {} {} {} {} -", backend, max_scrape, max_peers, age, mode).unwrap();
-            writeln!(out, "refused {} {} {} => {}", backend, max_scrape, max_peers, l.replace(' ', "_")).unwrap();
-            continue;
-        }
-        writeln!(out, "cfg udpnet {} {} {} {} {} {}", backend, max_scrape, max_peers, age, mode,
-            if mode == "off" { "-".to_string() } else { listed.iter().map(|h| hex(h)).collect::<Vec<_>>().join(",") }).unwrap();
         let mk = |ip: &str| -> Option<Client> {
             let ipa: IpAddr = ip.parse().ok()?;
             let sock = UdpSocket::bind(SocketAddr::new(ipa, 0)).ok()?;
@@ -148,14 +140,25 @@ pub fn run(out: &mut impl Write, seed: u64, cases: usize, _replay: &str, uring_r
         let mut clients: Vec<Client> = ["127.0.0.1", "127.0.0.1", "127.0.0.2", "::1"].iter().filter_map(|ip| mk(ip)).collect();
         let dst4: SocketAddr = format!("127.0.0.1:{}", server.port).parse().unwrap();
         let dst6: SocketAddr = format!("[::1]:{}", server.port).parse().unwrap();
-        // wait for the tracker: a connect request until it answers
+        // wait for the tracker, however loaded the machine is: either run() returns (the configuration was
+        // refused, or start-up failed) or a connect request is answered
         let mut up = false;
-        for _ in 0..60 {
+        let mut refused: Option<String> = None;
+        let t0 = std::time::Instant::now();
+        while t0.elapsed() < Duration::from_secs(45) {
+            if let Some(l) = server.exit_line(Duration::from_millis(0)) { refused = Some(l); break; }
             let mut b = Vec::new();
             Request::Connect(ConnectRequest { transaction_id: TransactionId::new(1) }).write_bytes(&mut b).unwrap();
             let _ = clients[0].sock.send_to(&b, dst4);
             if !drain(&clients, Duration::from_millis(40)).is_empty() { up = true; break; }
         }
+        if let Some(l) = refused {
+            writeln!(out, "cfg udpnet {} {} {} {} {} -", backend, max_scrape, max_peers, age, mode).unwrap();
+            writeln!(out, "refused {} {} {} => {}", backend, max_scrape, max_peers, l.replace(' ', "_")).unwrap();
+            continue;
+        }
+        writeln!(out, "cfg udpnet {} {} {} {} {} {}", backend, max_scrape, max_peers, age, mode,
+            if mode == "off" { "-".to_string() } else { listed.iter().map(|h| hex(h)).collect::<Vec<_>>().join(",") }).unwrap();
         if !up { writeln!(out, "net START-FAILED no-answer-to-connect").unwrap(); server.stop(); continue; }
         let mut fence_no: i32 = 0;
         let _ = drain(&clients, Duration::from_millis(60));
@@ -215,7 +218,13 @@ pub fn run(out: &mut impl Write, seed: u64, cases: usize, _replay: &str, uring_r
                     // let it go stale: more than a whole second must pass, and the socket worker must
                     // refresh its clock sample (mio: every 256 poll iterations) after that
                     std::thread::sleep(Duration::from_millis(2300));
-                    for _ in 0..330 { let _ = clients[ci].sock.send_to(&[0u8], dst); std::thread::sleep(Duration::from_millis(1)); }
+                    // one connect round trip at a time: the worker is back in poll() before the next datagram is sent,
+                    // so each is an iteration of its own however slowly the machine runs (datagrams sent blindly
+                    // pile up while the worker is descheduled and are then read in a single iteration)
+                    for _ in 0..600 {
+                        let none: Vec<u8> = Vec::new();
+                        if send_fenced(&clients, ci, &none, dst, &mut fence_no).is_none() { break; }
+                    }
                     let _ = drain(&clients, Duration::from_millis(40));
                     idclass = "stale"; cid = clients[ci].cid.unwrap().0;
                 }
